@@ -1027,6 +1027,14 @@ func c18(args []string) int {
 		return 2
 	}
 
+	// ---- phase 0b: cold start. Codecs that build something lazily on first use (per-type tables of struct fields, ...)
+	// are first used by several goroutines AT ONCE: every round makes a fresh, wide Go struct type that no code has
+	// seen before and releases M goroutines that decode a UDT into it and encode one from it; every result must be
+	// what the same call returns afterwards, when made alone.
+	for _, p := range c18ColdStart(*M, 30) {
+		rep.violate("c18|udt-struct|cold-start", p, map[string]interface{}{"check": "c18-cold-start"})
+	}
+
 	// ---- phase 1: sequential. Pass A defines F; passes B (seeded order, new objects) and C (reverse order, same objects
 	// again) must agree with it, otherwise the operation is not a function of its argument even without concurrency and
 	// says nothing about C18: it is left out and reported in the notes.
@@ -1311,4 +1319,80 @@ func c18(args []string) int {
 	rep.Extra["sequential_s"] = math.Round(tSeq.Seconds()*100) / 100
 	rep.Extra["concurrent_s"] = math.Round(tConc.Seconds()*100) / 100
 	return rep.print()
+}
+
+
+// c18ColdStart: concurrent FIRST use of fresh struct types by the UDT codec.
+func c18ColdStart(M, rounds int) (problems []string) {
+	udtT, err := datatype.NewUserDefined("ks", "cold", []string{"first", "last"}, []datatype.DataType{datatype.Int, datatype.Varchar})
+	if err != nil {
+		return []string{"cold start: " + err.Error()}
+	}
+	codec, err := datacodec.NewUserDefined(udtT)
+	if err != nil {
+		return []string{"cold start: " + err.Error()}
+	}
+	encoded := []byte{0, 0, 0, 4, 0, 0, 0, 42, 0, 0, 0, 2, 'o', 'k'}
+	var mu sync.Mutex
+	for r := 0; r < rounds; r++ {
+		// a type no code has seen: 400 fields, the two the UDT needs at the two ends (one found by tag, one by name)
+		fields := []reflect.StructField{{Name: "First", Type: reflect.TypeOf(int32(0)), Tag: reflect.StructTag(`cassandra:"first"`)}}
+		for i := 0; i < 400; i++ {
+			fields = append(fields, reflect.StructField{Name: fmt.Sprintf("Pad%dR%d", i, r), Type: reflect.TypeOf(""), Tag: reflect.StructTag(fmt.Sprintf(`cassandra:"pad_%d_%d"`, i, r))})
+		}
+		fields = append(fields, reflect.StructField{Name: "Last", Type: reflect.TypeOf("")})
+		typ := reflect.StructOf(fields)
+		start := make(chan struct{})
+		var wg sync.WaitGroup
+		for g := 0; g < M; g++ {
+			wg.Add(1)
+			go func(g int) {
+				defer wg.Done()
+				defer func() {
+					if x := recover(); x != nil {
+						mu.Lock()
+						problems = append(problems, fmt.Sprintf("round %d goroutine %d: first use of a struct type by the UDT codec from %d goroutines at once: panic: %v", r, g, M, x))
+						mu.Unlock()
+					}
+				}()
+				<-start
+				dest := reflect.New(typ)
+				_, derr := codec.Decode(encoded, dest.Interface(), primitive.ProtocolVersion4)
+				src := reflect.New(typ)
+				src.Elem().Field(0).SetInt(42)
+				src.Elem().Field(len(fields) - 1).SetString("ok")
+				out, eerr := codec.Encode(src.Interface(), primitive.ProtocolVersion4)
+				var p string
+				switch {
+				case derr != nil:
+					p = fmt.Sprintf("Decode failed: %v", derr)
+				case dest.Elem().Field(0).Int() != 42 || dest.Elem().Field(len(fields)-1).String() != "ok":
+					p = fmt.Sprintf("Decode gave first=%d last=%q", dest.Elem().Field(0).Int(), dest.Elem().Field(len(fields)-1).String())
+				case eerr != nil:
+					p = fmt.Sprintf("Encode failed: %v", eerr)
+				case !bytes.Equal(out, encoded):
+					p = fmt.Sprintf("Encode gave %x", out)
+				}
+				if p != "" {
+					mu.Lock()
+					problems = append(problems, fmt.Sprintf("round %d goroutine %d: first use of a struct type by the UDT codec from %d goroutines at once: %s (the same calls succeed when made one after another)", r, g, M, p))
+					mu.Unlock()
+				}
+			}(g)
+		}
+		close(start)
+		wg.Wait()
+		// the same calls made alone, afterwards, must succeed: otherwise the case itself is wrong (not a verdict about sharing)
+		dest := reflect.New(typ)
+		if _, err := codec.Decode(encoded, dest.Interface(), primitive.ProtocolVersion4); err != nil || dest.Elem().Field(0).Int() != 42 {
+			return []string{fmt.Sprintf("cold start: the sequential reference call failed: %v", err)}
+		}
+		if len(problems) > 10 {
+			break
+		}
+	}
+	if len(problems) > 10 {
+		problems = problems[:10]
+	}
+	return problems
 }
